@@ -418,3 +418,37 @@ package packet
 //@   ensures err == nil ==> n == len(f) && all(j, 0, len(f), f[j] == Sin(st, p0 + j))          [@value @filled]
 //@   ensures Sfail(st) ==> err != nil                                                [@errprop]
 //@   modifies f[:], stream(r)                                                        [@frame]
+
+//@ func (BitSet).WriteTo(b; w) (n, err)
+//@   let wk = sink(w)
+//@   let l0 = old(Wlen(wk))
+//@   ensures all(k, 0, l0, Wout(wk, k) == old(Wout(wk, k)))                         [@frame]
+//@   let hl = leb32_len(uint32(len(b)))
+//@   requires len(b) < 1<<31
+//@   loop 0: modifies sink(w)
+//@   loop 0: invariant -1 <= rangeindex && rangeindex < len(b) || (rangeindex == -1 && len(b) == 0)
+//@   loop 0: invariant n == hl + 8*(rangeindex+1) && Wlen(wk) == l0 + n && !Wfail(wk)
+//@   loop 0: invariant all(q, 0, 5, q < hl ==> Wout(wk, l0+q) == leb32_byte(uint32(len(b)), q))
+//@   loop 0: invariant all(j, 0, rangeindex+1, be64(Woutrow(wk), l0 + hl + 8*j) == uint64(b[j]))
+//@   loop 0: invariant all(k, 0, l0, Wout(wk, k) == old(Wout(wk, k)))
+//@   ensures err == nil ==> n == hl + 8*len(b) && Wlen(wk) == l0 + n                [@count]
+//@   ensures err == nil ==> all(q, 0, 5, q < hl ==> Wout(wk, l0+q) == leb32_byte(uint32(len(b)), q))   [@value]
+//@   ensures err == nil ==> all(j, 0, len(b), be64(Woutrow(wk), l0 + hl + 8*j) == uint64(b[j]))        [@value]
+//@   ensures Wfail(wk) ==> err != nil                                                [@errprop]
+//@   ensures !Wfail(wk) ==> err == nil                                               [@errprop]
+//@   modifies sink(w)                                                                [@frame]
+
+//@ func (*BitSet).ReadFrom(b; r) (n, err)
+//@   let st = stream(r)
+//@   let p0 = old(Spos(st))
+//@   let k = leb32_run(Sinrow(st), p0)
+//@   let L = int(int32(leb32_val(Sinrow(st), p0, k)))
+//@   loop 0: modifies (*b)[:], stream(r)
+//@   loop 0: invariant 0 <= i && i <= L && len(*b) == L
+//@   loop 0: invariant n == k + 8*i && Spos(st) == p0 + n && !Sfail(st)
+//@   loop 0: invariant all(j, 0, i, uint64((*b)[j]) == be64(Sinrow(st), p0 + k + 8*j))
+//@   ensures err == nil ==> L >= 0 && len(*b) == L && n == k + 8*L && Spos(st) == p0 + n      [@count @consume]
+//@   ensures err == nil ==> all(j, 0, L, uint64((*b)[j]) == be64(Sinrow(st), p0 + k + 8*j))   [@value @filled]
+//@   ensures !Sfail(st) && (k > 5 || L < 0) ==> err != nil                          [@value]
+//@   ensures Sfail(st) ==> err != nil                                                [@errprop]
+//@   modifies *b, (*b)[0:cap(*b)], stream(r)                                         [@frame]
